@@ -18,7 +18,15 @@ import (
 //	first I | next I | prev I | seek I K | value I | key I | iclose I
 //	rscan SRC P U T | getw SRC K K2 V2 | reopen        (flush, xupdate: harness-only, no model line)
 //	update IDX FAIL inner;inner;...                     db.Update (IDX=1) / db.Write (IDX=0)
+//	bflush B                                            BufferBatch.Flush alone (bad-handle on any other batch)
+//	psize P U                                           CalculatePrefixSize(P, U) (db/memory: the same loop over its iterator)
+//	crash                                               power loss (unsynced file data is dropped) + restart; only on
+//	                                                    the crashable file systems of the durability family
 //	close
+//
+// Calls on a batch that was wrapped in db.BufferBatch are sent to the driver as the layered ops of
+// ModelBuf.lean (newbuf, bufput, bufdel, bufget, bufflush, bufwrite, bufclose; bufother for the four
+// methods that panic): see driverLines.
 type Op struct {
 	K     string `json:"k"`
 	Src   string `json:"src,omitempty"` // db | b<N> | s<N>
@@ -33,6 +41,10 @@ type Op struct {
 	Wrap  string `json:"wrap,omitempty"` // newbatch: "" | "sync" (db.SyncBatch) | "buffer" (db.BufferBatch) around an indexed batch
 	Key2  []byte `json:"key2,omitempty"` // getw: key written by the callback; rscan: seek target
 	Inner []Op   `json:"inner,omitempty"`
+	// probe: set on the `scan db` the runner inserts after every op that may change the store (the
+	// store-level state is compared after every such op, not only when the sequence reads it); holds
+	// the kind of the op it follows
+	probe string
 }
 
 func hx(b []byte) string {
@@ -68,8 +80,12 @@ func (o Op) Line() string {
 		return "rscan " + o.Src + " " + hx(o.Key) + " " + b01(o.U) + " " + hx(o.Key2)
 	case "getw":
 		return "getw " + o.Src + " " + hx(o.Key) + " " + hx(o.Key2) + " " + hx(o.Val)
-	case "reopen":
-		return "reopen"
+	case "reopen", "crash":
+		return "reopen" // (in the models both are "nothing happens": every acknowledged write is durable)
+	case "bflush":
+		return fmt.Sprintf("bufflush %d", o.H)
+	case "psize":
+		return "psize " + hx(o.Key) + " " + b01(o.U)
 	case "flush", "xupdate":
 		return "" // harness-only: no effect in the models / not modelled (compared backend against backend)
 	case "newbatch":
@@ -124,6 +140,68 @@ func lines(ops []Op) []string {
 		if out[i] == "" {
 			out[i] = "(" + o.K + " " + o.Src + ")"
 		}
+		if o.K == "crash" {
+			out[i] = "crash" // (the models see a reopen)
+		}
 	}
 	return out
+}
+
+// driverLines renders the ops for the Lean driver; calls on a db.BufferBatch become the layered ops
+// of ModelBuf.lean ("" = harness-only op, no line).
+func driverLines(ops []Op) []string {
+	out := make([]string, len(ops))
+	var isBuf []bool
+	buf := func(h int) bool { return h >= 0 && h < len(isBuf) && isBuf[h] }
+	for i, o := range ops {
+		out[i] = o.Line()
+		switch o.K {
+		case "newbatch":
+			isBuf = append(isBuf, o.Idx && o.Wrap == "buffer")
+			if o.Idx && o.Wrap == "buffer" {
+				out[i] = "newbuf"
+			}
+		case "bput":
+			if buf(o.H) {
+				out[i] = fmt.Sprintf("bufput %d %s %s", o.H, hx(o.Key), hx(o.Val))
+			}
+		case "bdel":
+			if buf(o.H) {
+				out[i] = fmt.Sprintf("bufdel %d %s", o.H, hx(o.Key))
+			}
+		case "bwrite":
+			if buf(o.H) {
+				out[i] = fmt.Sprintf("bufwrite %d", o.H)
+			}
+		case "bclose":
+			if buf(o.H) {
+				out[i] = fmt.Sprintf("bufclose %d", o.H)
+			}
+		case "bsize", "bdelrange":
+			if buf(o.H) {
+				out[i] = fmt.Sprintf("bufother %d", o.H)
+			}
+		case "get", "has", "scan", "rscan":
+			if h, ok := bufSrc(o.Src); ok && buf(h) {
+				if o.K == "get" {
+					out[i] = fmt.Sprintf("bufget %d %s %s", h, hx(o.Key), b01(o.Fail))
+				} else {
+					out[i] = fmt.Sprintf("bufother %d", h)
+				}
+			}
+		}
+	}
+	return out
+}
+
+// bufSrc: the batch handle of a reader source "b<N>"
+func bufSrc(src string) (int, bool) {
+	if !strings.HasPrefix(src, "b") {
+		return 0, false
+	}
+	var h int
+	if _, err := fmt.Sscanf(src[1:], "%d", &h); err != nil {
+		return 0, false
+	}
+	return h, true
 }
